@@ -303,4 +303,46 @@ func rulesC02(e *Engine, r *Report) {
 	e.checkRefillKeepsLive(r, "R02.9")
 	// ---------------------------------------------------------------- R02.10
 	e.shareRule(r, "C17", "R17.4", "R02.10", "a file replaced after it was cached is not released on the old version's verdict: the recovery poll, the retrier and the payload-retry path drop a file whose Store.Sync reports a change, and Sync answers `unchanged` only when modification time (full resolution), size and metadata are all EQUAL")
+	// ---------------------------------------------------------------- R02.11
+	r.Rule("R02.11", "what is deleted is what was confirmed: FileSource.Remove works by path, so every call is reached only after the file on disk was compared with the cache entry that earned the confirmation (Store.Sync answers `unchanged`, or the file is gone) - a file rewritten since it was sent is a new version and is left for the next scan")
+	{
+		same := needFn(e, r, "R02.11", "client.(*Broker).unchangedOnDisk")
+		okHelper := false
+		if same != nil {
+			sy := "invoke(sts.FileSource.Sync)(p0.Conf.Store, p1)"
+			cls := labeler(C("("+sy+"#0 != nil)", "changed"), C("("+sy+"#0 == nil)", "same"), C("("+sy+"#1 == nil)", "noErr"))
+			okHelper = true
+			n := 0
+			for _, rw := range e.returnWorlds(r, "R02.11", same, cls) {
+				v := e.Canon(rw.In.(*ssa.Return).Results[0])
+				n++
+				gone := "invoke(sts.FileSource.IsNotExist)(p0.Conf.Store, " + sy + "#1)"
+				switch {
+				case v == "false":
+				case v == "true":
+					okHelper = okHelper && rw.W.HasAll("same", "noErr")
+				case v == gone, v == "phi("+gone+"|true)", v == "phi(true|"+gone+")":
+					// `err == nil || IsNotExist(err)`: the true leaf is the err == nil edge
+					okHelper = okHelper && rw.W.Has("same")
+				default:
+					okHelper = false
+				}
+			}
+			r.Check(okHelper && n > 0, "R02.11", "client.(*Broker).unchangedOnDisk: yes only when Sync reports no change and no error other than `gone`", e.Pos(same.Pos()),
+				"the comparison helper says `unchanged` although Store.Sync reported a change or an error", n)
+		}
+		rm := e.InvokeSites("sts", "FileSource", "Remove")
+		for _, s := range rm {
+			cc := s.Instr.Common()
+			x := e.Canon(cc.Args[0])
+			brk := "p0"
+			if s.Fn.Parent() != nil {
+				brk = "^p0"
+			}
+			cls := labeler(C("call(client.(*Broker).unchangedOnDisk)("+brk+", "+x+")", "sameVersion"))
+			e.Guarded(r, "R02.11", e.ShortName(s.Fn)+": FileSource.Remove("+x+") only for the version on record", s.Fn, only(s.Instr.(ssa.Instruction)), cls,
+				func(l LabelSet) bool { return l.Has("sameVersion") && okHelper }, "unchangedOnDisk("+x+")")
+		}
+		r.Min("R02.11", "FileSource.Remove call sites", len(rm), 2)
+	}
 }
